@@ -342,7 +342,14 @@ def main():
     if True:
         names = {'_chunk_done', '_stream_files', '_chunk_producer', '_worker', '_download_chunk', '_write_chunk_ref'}
         line_codes = dsched.find_code(R.Repository.snapshot.__code__, names) + \
-            dsched.find_code(R.Repository.restore.__code__, names) + [R.Repository._write_file_part.__code__]
+            dsched.find_code(R.Repository.restore.__code__, names)
+        if len(line_codes) < 4:
+            # the closures were renamed or restructured: fall back to every function nested in the two commands
+            line_codes = dsched.find_code(R.Repository.snapshot.__code__, None) + \
+                dsched.find_code(R.Repository.restore.__code__, None)
+        wfp = getattr(R.Repository, '_write_file_part', None)
+        if wfp is not None:
+            line_codes.append(wfp.__code__)
     plan = []
     for h in harnesses(t):
         bound = 1
